@@ -8,6 +8,7 @@ import (
 	"fmt"
 	"io"
 	"net"
+	"strconv"
 	"strings"
 	"sync"
 	"syscall"
@@ -139,22 +140,20 @@ type nextBackendFunc func() (backendAddr string, log logr.Logger, ok bool)
 
 // substituteBackendParams replaces $1, $2, etc. in the backend address template with captured groups.
 // If a parameter index is out of range or missing, it leaves the parameter as-is (e.g., "$99" stays "$99").
+//
+// All parameters are replaced in a single pass over the template, so text inserted for one
+// parameter is never re-interpreted as another parameter (a client-chosen host part such as
+// "$1" stays literal). Higher indexes take precedence to avoid replacing $10 when we mean $1.
 func substituteBackendParams(template string, groups []string) string {
 	if len(groups) == 0 {
 		return template
 	}
 
-	result := template
-	// Replace $1, $2, etc. with captured groups
-	// We need to handle this carefully to avoid replacing $10 when we mean $1
-	// Process from highest index to lowest to avoid partial replacements
+	oldnew := make([]string, 0, 2*len(groups))
 	for i := len(groups); i >= 1; i-- {
-		param := fmt.Sprintf("$%d", i)
-		if i-1 < len(groups) {
-			result = strings.ReplaceAll(result, param, groups[i-1])
-		}
+		oldnew = append(oldnew, "$"+strconv.Itoa(i), groups[i-1])
 	}
-	return result
+	return strings.NewReplacer(oldnew...).Replace(template)
 }
 
 func findRoute(
